@@ -226,10 +226,16 @@ NextLine(r) ==
       FlagT(code) == IF e.posterr /\ code \in PostErrTolerated
                      THEN /\ skip' = TRUE /\ UNCHANGED <<run, ct, its, diag>>
                      ELSE Flag(code)
-      AfterError(it1, lastIn) ==
+      \* the reason of the error item (division by zero, unassigned variable, Z/X read, wrong number / order of
+      \* outputs, the driver's own error) is predicted too; no listed property fixes it, so a difference is a note
+      \* (item.why, owned by none) and the run is followed on
+      AfterError(it1, lastIn, why) ==
         /\ its' = [its EXCEPT ![r.it].it = it1, ![r.it].lastIn = lastIn, ![r.it].posterr = TRUE, ![r.it].rng = rf.st,
                               ![r.it].dyn = Append(@, [k |-> "other"])]
-        /\ UNCHANGED <<run, ct, skip, diag>>
+        /\ IF "why" \in DOMAIN r.item /\ r.item.why # why
+           THEN /\ PrintT(<<"DIAG", run, l, "item.why">>) /\ diag' = diag \cup {<<run, l, "item.why">>}
+           ELSE diag' = diag
+        /\ UNCHANGED <<run, ct, skip>>
   IN
   \E c \in {NextCall(ct, e.it, rs, 0)} :      \* bound through a singleton set: evaluated exactly once
   IF r.item.k = "panic" THEN Flag("panic")
@@ -249,7 +255,7 @@ NextLine(r) ==
        ELSE IF c.pos # Len(r.rng) THEN FlagT("rng.tape")
        ELSE IF r.item.k # "err" \/ r.calls # <<>> THEN FlagT("item.kind")
        ELSE IF r.item.class # "runtime" THEN FlagT("item.class")
-       ELSE AfterError(c.it, e.lastIn)
+       ELSE AfterError(c.it, e.lastIn, c.err)
   ELSE \* a driver call is due
        IF r.calls = <<>> THEN FlagT("item.kind")
        ELSE IF r.calls[1].kind # c.call.kind THEN FlagT("call.kind")
@@ -270,7 +276,7 @@ NextLine(r) ==
              ELSE IF p.k = "err" THEN
                   IF r.item.class # p.class THEN FlagT("item.class")
                   ELSE IF p.class = "driver" /\ r.item.id # p.id THEN FlagT("fault.identity")
-                  ELSE AfterError(ret.it, r.calls[1].inputs)
+                  ELSE AfterError(ret.it, r.calls[1].inputs, p.why)
              ELSE \* a row
                   LET code == CompareRow(e, c, ret, r)
                   IN  IF code # "ok" THEN FlagT(code)
